@@ -266,8 +266,26 @@ async fn main(plan: Plan, slow_permille: u64) -> Outcome {
             Err(e) => out.violation("c02.client_task", format!("client task failed: {e}")),
         }
     }
-    // Let late responses to abandoned requests arrive (orphan path).
-    world::sleep_ns(6 * SEC).await;
+    // Let late responses to abandoned requests arrive (orphan path); requests the
+    // node never answered stay abandoned for good.
+    world::sleep_ns(tape::range("c02:settle", 6, 12) * SEC).await;
+    // A burst of fresh requests: they may only use ids that are really free.
+    let mut burst = Vec::new();
+    for k in 0..tape::range("c02:burst", 0, 64) {
+        let m = (idx + 100 + k) * 16;
+        let session = session.clone();
+        burst.push(tokio::spawn(async move {
+            let r = tokio::time::timeout(Duration::from_secs(60), session.query_unpaged(client::q_marker(m), ())).await;
+            (m, r)
+        }));
+    }
+    for h in burst {
+        if let Ok((m, Ok(Ok(qr)))) = h.await {
+            if let Err(e) = client::check_marker_rows(qr, m) {
+                out.violation("c02.attribution", e);
+            }
+        }
+    }
     // Bounded liveness / recovery: a fresh request is served.
     let m = (idx + 1) * 16;
     match tokio::time::timeout(
@@ -314,9 +332,10 @@ async fn main(plan: Plan, slow_permille: u64) -> Outcome {
 /// server then answers a chosen few (block boundaries of the id bitmap
 /// included) and the freed ids - and only those - may be used again.
 async fn exhaust(mut out: Outcome, session: Arc<scylla::client::session::Session>) -> Outcome {
-    const N: usize = 32768 + 300;
+    const FILL: usize = 32768;
+    const N: usize = FILL + 300;
     let mut handles = Vec::with_capacity(N);
-    for i in 0..N {
+    for i in 0..FILL {
         let m = (i as u64 + 10) * 16 + F_HOLDALL;
         let session = session.clone();
         handles.push(tokio::spawn(async move {
@@ -324,8 +343,26 @@ async fn exhaust(mut out: Outcome, session: Arc<scylla::client::session::Session
             (m, r.map_err(|e| client::short_err(&e)))
         }));
     }
-    // Let everything reach the node.
-    world::sleep_ns(400 * MS).await;
+    // Let everything reach the node, then a few callers abandon their (still
+    // unanswered) requests: their ids must stay reserved.
+    world::sleep_ns(300 * MS).await;
+    let abandon = tape::range("c02:exhaust_abandon", 0, 40) as usize;
+    for k in 0..abandon {
+        let idx = tape::choose("c02:exhaust_abandon_idx", FILL as u64) as usize;
+        handles[idx].abort();
+        let _ = k;
+        world::world().fault(Fault::Cancel);
+    }
+    world::sleep_ns(50 * MS).await;
+    for i in FILL..N {
+        let m = (i as u64 + 10) * 16 + F_HOLDALL;
+        let session = session.clone();
+        handles.push(tokio::spawn(async move {
+            let r = session.query_unpaged(client::q_marker(m), ()).await;
+            (m, r.map_err(|e| client::short_err(&e)))
+        }));
+    }
+    world::sleep_ns(200 * MS).await;
     let parked: Vec<(usize, i16, u64)> = {
         let mut w = world::world();
         let mut s = w.script.take().unwrap();
